@@ -415,8 +415,8 @@ class Output(IOutput, Loggable):
                     "Can't set property `mask` from target info, as it is not provided"
                 )
 
-            if self._output_info.time is None:
-                if not self.is_static and info.time is None:
+            if self._output_info.time is None and not self.is_static:
+                if info.time is None:
                     raise FinamMetaDataError(
                         "Can't set property `time` from target info, as it is not provided"
                     )
